@@ -124,7 +124,8 @@ class ValueGen:
         if isinstance(t, G.GraphQLNonNull):
             t = t.of_type
         if isinstance(t, G.GraphQLList):
-            return [self.value(t.of_type, depth + 1) for _ in range(self.r.randint(0, 2))]
+            # (deep in a recursive type lists are empty: a required list of the type itself would otherwise never end)
+            return [self.value(t.of_type, depth + 1) for _ in range(self.r.randint(0, 2) if depth < 6 else 0)]
         if isinstance(t, G.GraphQLEnumType):
             return self.r.choice(list(t.values))
         if isinstance(t, G.GraphQLInputObjectType):
